@@ -21,12 +21,25 @@ func NegotiateContentEncoding(r *http.Request, offers []string) string {
 	bestQ := -1.0
 	specs := header.ParseAccept(r.Header, "Accept-Encoding")
 	for _, offer := range offers {
+		// An explicit entry for the offer has precedence over the
+		// wildcard, so that e.g. "gzip;q=0, *;q=0.5" refuses gzip.
+		q, explicit := -1.0, false
 		for _, spec := range specs {
-			if spec.Q > bestQ &&
-				(spec.Value == "*" || spec.Value == offer) {
-				bestQ = spec.Q
-				bestOffer = offer
+			switch {
+			case spec.Value == offer:
+				if !explicit || spec.Q > q {
+					q = spec.Q
+				}
+				explicit = true
+			case spec.Value == "*" && !explicit:
+				if spec.Q > q {
+					q = spec.Q
+				}
 			}
+		}
+		if q > bestQ {
+			bestQ = q
+			bestOffer = offer
 		}
 	}
 	if bestQ == 0 {
